@@ -10,7 +10,11 @@ pub struct C19;
 
 /// increasing non-uniform dyadic grid: spacings are multiples of 2^-9 >= 2^-9 (> 1e-3)
 fn gen_grid(src: &mut Src, n: usize) -> (Vec<f64>, bool) {
-    let mut x = src.small_int(64) as f64 / 8.0;
+    // origin: near zero, or far from it (2^10 .. 2^20; the spacings stay exactly representable)
+    let mut x = match src.below(4) {
+        0 => (src.small_int(64) as f64 / 8.0) + 2f64.powi(10 + src.below(11) as i32) * if src.coin() { 1.0 } else { -1.0 },
+        _ => src.small_int(64) as f64 / 8.0,
+    };
     let mut g = vec![x];
     let uniform = src.below(5) == 0;
     let h0 = (1 + src.below(2048)) as f64 / 512.0;
@@ -114,8 +118,14 @@ fn mesh1d(case: &mut Case) -> Result<(), String> {
     }
     for i in 0..n - 1 {
         let h = grid[i + 1] - grid[i];
-        let pts = [0.5, case.src.f64_in(0.001, 0.999), case.src.f64_in(0.001, 0.999)];
+        // mid-point, two random interior points, and points just inside the cell next to either node
+        // (2e-6 .. 1e-4 away: outside the 1e-6 exclusion zone, close enough to expose a widened snapping window)
+        let near = 10f64.powf(case.src.f64_in(-5.7, -4.0));
+        let pts = [0.5, case.src.f64_in(0.001, 0.999), case.src.f64_in(0.001, 0.999), near / h, 1.0 - near / h];
         for t in pts {
+            if !(t > 0.0 && t < 1.0) {
+                continue;
+            }
             let x = grid[i] + t * h;
             if (x - grid[i]).abs() < 1e-6 || (grid[i + 1] - x).abs() < 1e-6 {
                 continue;
@@ -161,13 +171,21 @@ fn mesh1d(case: &mut Case) -> Result<(), String> {
     let prec = case.src.urange(3, 12);
     let file = scratch_file();
     mesh.output(&file, prec);
-    let mut back = Mesh1D::<f64, f64>::new(Vector::create(vec![0.0, 1.0]), nv);
+    // the receiving mesh had 2..=16 nodes before (fewer or more than the file) and non-zero data
+    let old_n = case.src.urange(2, 16);
+    let mut back = Mesh1D::<f64, f64>::new(Vector::<f64>::linspace(-3.0, 5.0, old_n), nv);
+    for i in 0..old_n {
+        for v in 0..nv {
+            back[i][v] = 100.0 + i as f64;
+        }
+    }
     back.read(&file);
     let _ = std::fs::remove_file(&file);
     if back.nnodes() != n || back.nvars() != nv {
         return Err(format!("read(): {} nodes / {} vars, expected {} / {}", back.nnodes(), back.nvars(), n, nv));
     }
-    let tol = 0.5 * 10f64.powi(-(prec as i32)) * (1.0 + 1e-9) + 1e-13 * scale.max(100.0);
+    let gmax = grid.iter().fold(0.0f64, |a, b| a.max(b.abs()));
+    let tol = 0.5 * 10f64.powi(-(prec as i32)) * (1.0 + 1e-9) + 1e-13 * scale.max(100.0).max(gmax);
     for i in 0..n {
         if !((back.coord(i) - grid[i]).abs() <= tol) {
             return Err(format!("read(): node {} = {:e}, written {:e} (precision {})", i, back.coord(i), grid[i], prec));
@@ -176,6 +194,47 @@ fn mesh1d(case: &mut Case) -> Result<(), String> {
             if !((back[i][v] - model[i][v]).abs() <= tol) {
                 return Err(format!("read(): variable {} at node {} = {:e}, written {:e} (precision {})", v, i, back[i][v], model[i][v], prec));
             }
+        }
+    }
+    // the mesh read back is a fully functional mesh: every access path and the quadrature agree with its own data
+    if back.nodes().vec.len() != n {
+        return Err(format!("read(): nodes() has {} entries for {} nodes", back.nodes().vec.len(), n));
+    }
+    for i in 0..n {
+        if back.get_nodes_vars(i).vec != back[i].vec || back[i].vec.len() != nv {
+            return Err(format!("read(): node {} differs between get_nodes_vars and the index operator", i));
+        }
+    }
+    if std::panic::catch_unwind(std::panic::AssertUnwindSafe(|| back[n].size())).is_ok() && old_n <= n {
+        // (when the mesh shrank the index operator past the end is judged by C20)
+        return Err(format!("read(): node {} is addressable although the mesh has {} nodes", n, n));
+    }
+    for v in 0..nv {
+        let mut sdd = Dd::ZERO;
+        let mut mag = 0.0;
+        for i in 0..n - 1 {
+            let h = back.coord(i + 1) - back.coord(i);
+            sdd = sdd + Dd::from(0.5 * h) * (Dd::from(back[i][v]) + Dd::from(back[i + 1][v]));
+            mag += (0.5 * h * (back[i][v].abs() + back[i + 1][v].abs())).abs();
+        }
+        let got = match crate::engine::catch(|| back.trapezium(v)) {
+            Ok(g) => g,
+            Err(e) => return Err(format!("trapezium({}) on a mesh read from a file with {} nodes (it had {} before) panicked: {}", v, n, old_n, e)),
+        };
+        if !((got - sdd.to_f64()).abs() <= 1e-12 * (mag + 1.0)) {
+            return Err(format!("after read(): trapezium({}) = {:e}, sum of cell contributions {:e}", v, got, sdd.to_f64()));
+        }
+    }
+    let mid = 0.5 * (back.coord(0) + back.coord(1));
+    let iv = match crate::engine::catch(|| back.get_interpolated_vars(mid)) {
+        Ok(g) => g.vec,
+        Err(e) => return Err(format!("interpolation on a mesh read from a file panicked: {}", e)),
+    };
+    for v in 0..nv {
+        let (l, r) = (back[0][v], back[1][v]);
+        let e = (Dd::from(l) + (Dd::from(r) - Dd::from(l)) * (Dd::from(mid) - Dd::from(back.coord(0))).div(Dd::from(back.coord(1)) - Dd::from(back.coord(0)))).to_f64();
+        if !rel_close(iv[v], e, scale) {
+            return Err(format!("after read(): interpolation at the first mid-cell gives {:e}, expected {:e}", iv[v], e));
         }
     }
     Ok(())
@@ -348,11 +407,11 @@ impl Prop for C19 {
         "C19"
     }
     fn rule(&self) -> String {
-        "1-D (1/2) and 2-D (1/2) meshes with 2..=12 nodes per direction on increasing dyadic grids (spacings random multiples of 2^-9 up to 4, uniform with probability 1/5), 1..=4 variables, integer nodal data; \
+        "1-D (1/2) and 2-D (1/2) meshes with 2..=12 nodes per direction on increasing dyadic grids (spacings random multiples of 2^-9 up to 4, uniform with probability 1/5; origin near 0 or, with probability 1/4, at +-2^10..2^20), 1..=4 variables, integer nodal data; \
          write histories of 1..=30 steps through set_nodes_vars, IndexMut, +=, apply (bilinear function) and assign against an array model. Checked: nnodes/nvars/nodes/coord/xnodes/ynodes, get_nodes_vars and the index operator at every node, \
-         cross_section_xnode/ynode (other direction's nodes, right row/column), var_as_matrix (nx x ny, entry (i,j)); 1-D interpolation at every node (nodal value) and at the mid-point and two random interior points of every cell at least 1e-6 from a node \
-         (linear interpolant, 1e-12 relative); trapezium and square_trapezium against the double-double sum of cell contributions, and against the closed form for linear (1-D) / bilinear (2-D) data; output(file, precision 3..=12) then read into a fresh mesh \
-         reproduces nodes and variables within 0.5*10^-precision. Non-trivial: non-uniform grid with >= 3 nodes per direction (2-D: nx != ny as well). distinct = distinct decoded choice sequence."
+         cross_section_xnode/ynode (other direction's nodes, right row/column), var_as_matrix (nx x ny, entry (i,j)); 1-D interpolation at every node (nodal value) and at the mid-point, two random interior points and two points 2e-6..1e-4 inside either end of every cell (all at least 1e-6 from a node) \
+         (linear interpolant, 1e-12 relative); trapezium and square_trapezium against the double-double sum of cell contributions, and against the closed form for linear (1-D) / bilinear (2-D) data; output(file, precision 3..=12) then read into a mesh that previously had 2..=16 nodes and other data \
+         reproduces nodes and variables within 0.5*10^-precision, and the mesh read back answers every access path, trapezium and interpolation consistently. Non-trivial: non-uniform grid with >= 3 nodes per direction (2-D: nx != ny as well). distinct = distinct decoded choice sequence."
             .into()
     }
     fn assumptions(&self) -> Vec<String> {
